@@ -60,14 +60,19 @@ def ob_ranges(chk, P):
         ex = Executor(P, models_with([])); ex.seed = chk.seed; ex.max_steps = 30000
         f_eval = P.find_method('Range', 'evaluate', None, 'lib')
         a = z3.BitVec('a', 64); w = z3.BitVec('w', 64)
-        st = State(); st.assume(z3.And(w >= -3, w <= 8)); st.assume(z3.And(a > -(1 << 62), a < (1 << 62)))
+        st = State(); st.assume(z3.And(w >= -3, w <= 8)); st.assume(z3.And(z3.BVAddNoOverflow(a, w, True), z3.BVAddNoUnderflow(a, w)))      # every start, the stop included when it is i64::MAX or i64::MIN
         rng = st.ref(Adt('Range', 'Counted', [Int(a, 'i64'), Int(a + w, 'i64')]))
         for s2, kind, val in ex.run(f_eval, [rng], st):
             ob.paths += 1; ob.reached()
             sc = {'kind': 'template', 'template': '{% for i in (3..6) %}{{i}},{% endfor %}|{% for i in (5..3) %}{{i}}{% else %}E{% endfor %}|{% for i in (-2..1) %}{{i}},{% endfor %}|{% for i in (4..4) %}{{i}}{% else %}E{% endfor %}|{% for i in (0..0) %}{{i}}{% else %}E{% endfor %}', '_e': '3,4,5,6,|E|-2,-1,0,1,|4|0'}
             conf = lambda r: r.get('output') != '3,4,5,6,|E|-2,-1,0,1,|4|0'
             if kind == 'panic' or val.variant != 'Ok':
-                ob.violation('Range::evaluate/panic', f'range materialisation: {kind} {val}', {}, sc, conf); continue
+                m = ob.decide(ex, s2.conds, z3.BoolVal(True))
+                if m is None: continue
+                av = m.eval(a, model_completion=True).as_signed_long(); bv = m.eval(a + w, model_completion=True).as_signed_long()
+                exp = ''.join(f'{i},' for i in range(av, bv + 1))
+                ob.violation('Range::evaluate/panic', f'range materialisation of ({av}..{bv}): {kind} {val}', {'start': av, 'stop': bv},
+                             {'kind': 'template', 'template': '{% for i in (a..b) %}{{i}},{% endfor %}', 'globals': {'a': av, 'b': bv}}, lambda r, e=exp: r.get('outcome') != 'ok' or r.get('output') != e); continue
             items = s2.deref_all(val.items[0]).items
             cons = [w == len(items) - 1] if items else [w < 0]
             for k, it in enumerate(items):
@@ -238,4 +243,5 @@ def run(chk):
     C14.ob_sort_comparator(chk, P)              # ... and must be a total order, or std's sort may panic on long arrays
     C14.ob_uniq(chk, P, 3)
     C16.ob_escape(chk, P, 3)                    # byte-offset slicing in escape()
+    C16.ob_escape_once(chk, P, 2, 3, 1)         # the entity look-ahead of escape_once (nr_escaped) on entity-shaped text
     C17.ob_unknown_and_errors(chk, P)           # the date filter's format string: unknown / malformed directives never panic
